@@ -3,9 +3,9 @@
    every choice of operator spelling.  One mutual induction over the three grammar relations, on top of
    the literal round trips (LexProofs), the token-boundary lemmas (LayoutProofs) and the refinement of the
    abstract climbing loop (ClimbText). *)
-From Coq Require Import List Arith ZArith NArith Lia Bool String.
+From Coq Require Import List Arith ZArith NArith Lia Bool String ZifyBool.
 From WF Require Import Base.Bytes Sem.RangeSet Lang.Types Lang.Ast Parse.Lex Sem.Compile Parse.Parser Parse.Climb
-  Spec.C06 Spec.C07 Spec.Grammar Proofs.LexProofs Proofs.LayoutProofs Proofs.ClimbText Proofs.FuelProofs.
+  Spec.C06 Spec.C07 Spec.Grammar Proofs.LexBase Proofs.LexProofs Proofs.LexMiscProofs Proofs.LayoutProofs Proofs.ClimbText Proofs.FuelProofs.
 Import ListNotations.
 Open Scope N_scope.
 Local Notation length := List.length (only parsing).
@@ -134,28 +134,47 @@ Proof.
 Qed.
 
 (* ---- literals ---- *)
-Lemma lit_roundtrip t lit v r : lit_text t lit v -> atom_follow r -> lex_rhs t (lit ++ r) = LOk v r.
+(* what may follow a literal: nothing that continues a number, an address or a hex string *)
+Definition lit_follow (r : bytes) : Prop :=
+  int_follow_ok r /\ ip_follow_ok r /\ hexpairs_follow_ok r /\ no_dotdot_next r /\ listname_follow_ok r.
+Lemma atom_lit_follow r : atom_follow r -> lit_follow r.
 Proof.
-  intros H Hr. destruct H as [f v Hv Hf|l Hl|n body Hn Hb Hc|u1 u2 b0 l Hb0 Hl Hne|t a Ha]; cbn [lex_rhs].
+  intros H. repeat split; [now apply follow_int|now apply follow_ip|now apply follow_hex| |].
+  - destruct r as [|b r]; [exact I|]. follow_solve H.
+  - destruct r as [|b r]; [exact I|]. unfold listname_follow_ok, next_not. follow_solve H.
+Qed.
+(* inside a brace list: white space or the closing brace *)
+Definition item_follow (r : bytes) : Prop :=
+  match r with [] => True | b :: _ => is_space b = true \/ b = 125 end.
+Lemma item_lit_follow r : item_follow r -> lit_follow r.
+Proof.
+  intros H. destruct r as [|b r]; [repeat split|].
+  unfold lit_follow, int_follow_ok, ip_follow_ok, hexpairs_follow_ok, listname_follow_ok, next_not.
+  repeat split; follow_solve H.
+Qed.
+
+Lemma lit_roundtrip t lit v r : lit_text t lit v -> lit_follow r -> lex_rhs t (lit ++ r) = LOk v r.
+Proof.
+  intros H (Hi & Hp & Hh & _ & _). destruct H as [f v Hv Hf|l Hl|n body Hn Hb Hc|u1 u2 b0 l Hb0 Hl Hne|t a Ha]; cbn [lex_rhs].
   - assert (E : lex_int (print_int f v ++ r) = LOk v r).
     { destruct f as [|u pad|pad].
-      + apply int_dec_roundtrip; [assumption|now apply follow_int].
-      + apply int_hex_roundtrip; [|now apply follow_int]. cbn in Hf. unfold in_i64, i64_min, i64_max in *. lia.
-      + apply int_oct_roundtrip; [|now apply follow_int]. cbn in Hf. unfold in_i64, i64_min, i64_max in *. lia. }
+      + apply int_dec_roundtrip; assumption.
+      + apply int_hex_roundtrip; [|assumption]. cbn in Hf. unfold in_i64, i64_min, i64_max in *. lia.
+      + apply int_oct_roundtrip; [|assumption]. cbn in Hf. unfold in_i64, i64_min, i64_max in *. lia. }
     rewrite E. reflexivity.
   - rewrite quoted_roundtrip by assumption. reflexivity.
   - rewrite raw_roundtrip_utf8 by assumption. reflexivity.
-  - rewrite hexpairs_roundtrip; [reflexivity|assumption|exact Hl|assumption|now apply follow_hex].
-  - rewrite (addr_roundtrip t a r Ha (follow_ip r Hr)). reflexivity.
+  - rewrite hexpairs_roundtrip; [reflexivity|assumption|exact Hl|assumption|assumption].
+  - rewrite (addr_roundtrip t a r Ha Hp). reflexivity.
 Qed.
 
-Lemma lit_bytes_roundtrip lit b f r : lit_text TBytes lit (RBytes b f) -> atom_follow r -> lex_bytes (lit ++ r) = LOk (b, f) r.
+Lemma lit_bytes_roundtrip lit b f r : lit_text TBytes lit (RBytes b f) -> lit_follow r -> lex_bytes (lit ++ r) = LOk (b, f) r.
 Proof.
   intros H Hr. pose proof (lit_roundtrip _ _ _ r H Hr) as E. cbn [lex_rhs] in E. unfold lmap in E.
   destruct (lex_bytes (lit ++ r)) as [[b' f'] r'|k a n| |]; cbn [lbind fst snd] in E; try discriminate E.
   now injection E as -> -> ->.
 Qed.
-Lemma lit_int_roundtrip lit z r : lit_text TInt lit (RInt z) -> atom_follow r -> lex_int (lit ++ r) = LOk z r.
+Lemma lit_int_roundtrip lit z r : lit_text TInt lit (RInt z) -> lit_follow r -> lex_int (lit ++ r) = LOk z r.
 Proof.
   intros H Hr. pose proof (lit_roundtrip _ _ _ r H Hr) as E. cbn [lex_rhs] in E. unfold lmap in E.
   destruct (lex_int (lit ++ r)) as [z' r'|k a n| |]; cbn [lbind] in E; try discriminate E.
@@ -181,10 +200,11 @@ Proof. destruct x; [intros []|]. cbn. auto. Qed.
 Lemma tok_end_last x b : visible b -> tok_end (x ++ [b]).
 Proof. intros H. apply tok_end_app. exact H. Qed.
 
-Lemma ident_byte_visible b : ident_byte b -> visible b /\ b <> 61.
+Lemma ident_byte_visible b : ident_byte b -> visible b /\ b <> 61 /\ b <> 125.
 Proof.
   unfold ident_byte, visible, is_ascii, is_ident_char, is_alnum, is_digit, is_ws_ascii. intros H.
-  apply andb_true_iff in H. destruct H as [H1 H2]. apply N.ltb_lt in H1. repeat split; [exact H1| |intros ->; discriminate H2].
+  apply andb_true_iff in H. destruct H as [H1 H2]. apply N.ltb_lt in H1.
+  repeat split; [exact H1| |intros ->; discriminate H2|intros ->; discriminate H2].
   destruct ((9 <=? b) && (b <=? 13)) eqn:E.
   { apply andb_true_iff in E. destruct E as [Ea Eb]. apply N.leb_le in Ea, Eb.
     assert (b = 9 \/ b = 10 \/ b = 11 \/ b = 12 \/ b = 13) as [->|[->|[->|[->| ->]]]] by lia; discriminate H2. }
@@ -203,34 +223,210 @@ Qed.
 Lemma no_eq_ws_tok ws lit r : layout_ws ws -> tok_start lit -> no_eq_follows (ws ++ lit ++ r).
 Proof.
   intros Hw Ht. destruct ws as [|c ws]; cbn [app].
-  - destruct lit as [|b lit]; [destruct Ht|]. destruct Ht as [_ Hb]. cbn. destruct b as [|p]; [exact I|].
+  - destruct lit as [|b lit]; [destruct Ht|]. destruct Ht as [_ [Hb _]]. cbn. destruct b as [|p]; [exact I|].
     do 6 (try (destruct p as [p|p|]); try exact I). congruence.
   - inversion Hw as [|? ? Hc _]; subst. destruct Hc as [->|[->| ->]]; exact I.
 Qed.
 
-(* ---- the parser on atoms ---- *)
+(* integers in every form begin and end with a visible character: the side conditions of the grammar hold *)
+Lemma digit_tok u d : (0 <= d < 16)%Z -> visible (digit_char u d) /\ digit_char u d <> 61 /\ digit_char u d <> 125.
+Proof.
+  intros H. pose proof (digit_char_lt128 u d H) as L. pose proof (digit_char_hex u d H) as X.
+  unfold visible, is_ws_ascii. unfold is_hexdigit, Lex.is_digit in X. repeat split; lia.
+Qed.
+Lemma digits_ends radix u ds : (2 <= radix <= 16)%Z -> ds <> [] -> Forall (is_digit_of radix u) ds -> tok_start ds /\ tok_end ds.
+Proof.
+  intros Hr Hne Hf. split.
+  - destruct ds as [|c t]; [congruence|]. inversion Hf as [|? ? (d & Hd & ->) _]; subst. apply digit_tok. lia.
+  - destruct (exists_last Hne) as (pre & c & ->). apply tok_end_last.
+    apply Forall_app in Hf. destruct Hf as [_ Hf]. inversion Hf as [|? ? (d & Hd & ->) _]; subst. apply digit_tok. lia.
+Qed.
+Lemma print_int_ends f v : int_form_ok f v -> tok_start (print_int f v) /\ tok_end (print_int f v).
+Proof.
+  intros Hok. destruct f as [|u pad|pad]; cbn [print_int].
+  - unfold print_dec. destruct (v <? 0)%Z eqn:E.
+    + destruct (print_radix_spec 10 false (- v)%Z ltac:(lia) ltac:(lia)) as (Hne & Hf & _).
+      destruct (digits_ends 10 false _ ltac:(lia) Hne Hf) as [_ He]. split.
+      * cbn. repeat split; discriminate.
+      * change (45 :: print_radix 10 (- v) false) with ([45] ++ print_radix 10 (- v) false). now apply tok_end_app.
+    + destruct (print_radix_spec 10 false v ltac:(lia) ltac:(lia)) as (Hne & Hf & _).
+      exact (digits_ends 10 false _ ltac:(lia) Hne Hf).
+  - cbn in Hok. destruct (print_radix_spec 16 u v ltac:(lia) Hok) as (Hne & Hf & _).
+    destruct (digits_ends 16 u _ ltac:(lia) Hne Hf) as [_ He]. split.
+    + cbn. repeat split; discriminate.
+    + rewrite app_assoc. now apply tok_end_app.
+  - cbn in Hok. destruct (print_radix_spec 8 false v ltac:(lia) Hok) as (Hne & Hf & _).
+    destruct (digits_ends 8 false _ ltac:(lia) Hne Hf) as [_ He]. split.
+    + cbn. repeat split; discriminate.
+    + change (48 :: repeat 48 pad ++ print_radix 8 v false) with ((48 :: repeat 48 pad) ++ print_radix 8 v false).
+      now apply tok_end_app.
+Qed.
+Lemma print_quoted_ends l : tok_start (print_quoted l) /\ tok_end (print_quoted l).
+Proof.
+  unfold print_quoted. split; [cbn; repeat split; discriminate|].
+  change (34 :: print_qbody l ++ [34]) with ((34 :: print_qbody l) ++ [34]). apply tok_end_last. split; reflexivity.
+Qed.
+
+(* ---- index accesses ---- *)
+Lemma idx_ty t0 txt idx t : idx_text t0 txt idx t -> ty_index t0 idx = Some t.
+Proof. induction 1; cbn [ty_index]; auto. Qed.
+
+Lemma idx_text_first t0 txt idx t x : idx_text t0 txt idx t -> txt = [] \/ exists y, txt ++ x = 91 :: y.
+Proof. destruct 1; [now left|right; eexists; reflexivity..]. Qed.
+
+Lemma close_bracket_follow ws x : layout_ws ws -> lit_follow (ws ++ 93 :: x).
+Proof.
+  intros Hw. destruct ws as [|c ws]; cbn [app].
+  - repeat split.
+  - inversion Hw as [|? ? Hc _]; subst. destruct Hc as [->|[->| ->]]; repeat split.
+Qed.
+
 Section Main.
 Variables (sch : scheme) (st : settings).
 
-Definition is_bool (t : ty) : bool := match t with TBool => true | _ => false end.
-Lemma is_bool_comb a b : is_bool a = true -> is_bool b = true -> types_combinable a b = true.
-Proof. destruct a, b; try discriminate; reflexivity. Qed.
-Lemma is_bool_eq t : is_bool t = true -> t = TBool.
-Proof. destruct t; try discriminate; reflexivity. Qed.
+Lemma lex_indexes_text t0 txt idx t : idx_text t0 txt idx t ->
+  forall r acc fuel, starts_with [91] r = None -> (List.length txt < fuel)%nat ->
+  lex_indexes sch st fuel (txt ++ r) t0 acc = LOk (rev acc ++ idx) r.
+Proof.
+  induction 1 as [t|e ws1 f n ws2 rest idx t H1 H2 Hn Hf _ IH|e ws1 l ws2 rest idx t H1 H2 Hl Hu _ IH
+                  |e ws1 ws2 rest idx t H1 H2 _ IH|e ws1 ws2 rest idx t H1 H2 _ IH]; intros r acc fuel Hr Hfu.
+  - destruct fuel as [|fu]; [cbn in Hfu; lia|]. cbn [app lex_indexes]. rewrite Hr. now rewrite app_nil_r.
+  - destruct fuel as [|fu]; [cbn in Hfu; lia|].
+    replace ((91 :: ws1 ++ print_int f n ++ ws2 ++ 93 :: rest) ++ r)
+      with (91 :: ws1 ++ (print_int f n ++ ws2 ++ 93 :: rest ++ r)) by (cbn [app]; rewrite <- !app_assoc; reflexivity).
+    cbn [lex_indexes starts_with]. rewrite N.eqb_refl. cbv iota beta.
+    rewrite skip_space_ws by assumption. rewrite (skip_space_tok _ _ (proj1 (print_int_ends f n Hf))).
+    rewrite (index_roundtrip f n _ Hn Hf (proj1 (close_bracket_follow ws2 _ H2))). cbn [lbind].
+    rewrite (proj2 (index_layout [] ws2 [] _ (Forall_nil _) H2)). cbn [lbind index_step index_of_raw].
+    rewrite IH; [cbn [rev]; now rewrite <- app_assoc|assumption|].
+    repeat (cbn [List.length] in Hfu; rewrite ?app_length in Hfu). lia.
+  - destruct fuel as [|fu]; [cbn in Hfu; lia|].
+    replace ((91 :: ws1 ++ print_quoted l ++ ws2 ++ 93 :: rest) ++ r)
+      with (91 :: ws1 ++ (print_quoted l ++ ws2 ++ 93 :: rest ++ r)) by (cbn [app]; rewrite <- !app_assoc; reflexivity).
+    cbn [lex_indexes starts_with]. rewrite N.eqb_refl. cbv iota beta.
+    rewrite skip_space_ws by assumption. rewrite (skip_space_tok _ _ (proj1 (print_quoted_ends l))).
+    rewrite (map_key_utf8_only l _ Hl), Hu. cbn [lbind].
+    rewrite (proj2 (index_layout [] ws2 [] _ (Forall_nil _) H2)). cbn [lbind index_step index_of_raw].
+    rewrite IH; [cbn [rev]; now rewrite <- app_assoc|assumption|].
+    repeat (cbn [List.length] in Hfu; rewrite ?app_length in Hfu). lia.
+  - destruct fuel as [|fu]; [cbn in Hfu; lia|].
+    replace ((91 :: ws1 ++ 42 :: ws2 ++ 93 :: rest) ++ r)
+      with (91 :: ws1 ++ (42 :: ws2 ++ 93 :: rest ++ r)) by (repeat (cbn [app]; rewrite <- ?app_assoc); reflexivity).
+    cbn [lex_indexes starts_with]. rewrite N.eqb_refl. cbv iota beta.
+    rewrite skip_space_ws by assumption. cbn [skip_space]. change (is_space 42) with false. cbv iota.
+    change (lex_field_index (42 :: ws2 ++ 93 :: rest ++ r)) with (@LOk raw_index RIEach (ws2 ++ 93 :: rest ++ r)).
+    cbn [lbind]. rewrite (proj2 (index_layout [] ws2 [] _ (Forall_nil _) H2)). cbn [lbind index_step index_of_raw].
+    rewrite IH; [cbn [rev]; now rewrite <- app_assoc|assumption|].
+    repeat (cbn [List.length] in Hfu; rewrite ?app_length in Hfu). lia.
+  - destruct fuel as [|fu]; [cbn in Hfu; lia|].
+    replace ((91 :: ws1 ++ 42 :: ws2 ++ 93 :: rest) ++ r)
+      with (91 :: ws1 ++ (42 :: ws2 ++ 93 :: rest ++ r)) by (repeat (cbn [app]; rewrite <- ?app_assoc); reflexivity).
+    cbn [lex_indexes starts_with]. rewrite N.eqb_refl. cbv iota beta.
+    rewrite skip_space_ws by assumption. cbn [skip_space]. change (is_space 42) with false. cbv iota.
+    change (lex_field_index (42 :: ws2 ++ 93 :: rest ++ r)) with (@LOk raw_index RIEach (ws2 ++ 93 :: rest ++ r)).
+    cbn [lbind]. rewrite (proj2 (index_layout [] ws2 [] _ (Forall_nil _) H2)). cbn [lbind index_step index_of_raw].
+    rewrite IH; [cbn [rev]; now rewrite <- app_assoc|assumption|].
+    repeat (cbn [List.length] in Hfu; rewrite ?app_length in Hfu). lia.
+Qed.
+
+
+(* ---- brace lists ---- *)
+Lemma tok_start_not_close t x : tok_start t -> starts_with [125] (t ++ x) = None.
+Proof.
+  destruct t as [|b t]; [intros []|]. intros (_ & _ & Hb). cbn [app starts_with].
+  destruct (125 =? b) eqn:E; [apply N.eqb_eq in E; congruence|reflexivity].
+Qed.
+
+Lemma items_tail_follow {A} (item : bytes -> A -> Prop) txt l x : items_tail item txt l -> item_follow (txt ++ x).
+Proof.
+  destruct 1 as [ws Hw|ws t a rest l Hw Hne _ _ _].
+  - destruct ws as [|c ws]; [cbn; auto|]. inversion Hw as [|? ? Hc _]; subst. destruct Hc as [->|[->| ->]]; cbn; auto.
+  - destruct ws as [|c ws]; [congruence|]. inversion Hw as [|? ? Hc _]; subst. destruct Hc as [->|[->| ->]]; cbn; auto.
+Qed.
+
+Section Items.
+Context {A : Type} (item : bytes -> A -> Prop) (lex1 : bytes -> lres A).
+Hypothesis item_lex : forall t a r, item t a -> item_follow r -> lex1 (t ++ r) = LOk a r.
+
+Lemma brace_items_tail txt l : items_tail item txt l -> forall r acc fuel, (List.length txt < fuel)%nat ->
+  brace_items fuel lex1 (txt ++ r) acc = LOk (rev acc ++ l) r.
+Proof.
+  induction 1 as [ws Hw|ws t a rest l Hw Hne Hi Hs Ht IH]; intros r acc fuel Hf.
+  - destruct fuel as [|fu]; [lia|]. cbn [brace_items]. rewrite <- app_assoc. rewrite skip_space_ws by assumption.
+    cbn [app skip_space]. change (is_space 125) with false. cbv iota. cbn [starts_with]. rewrite N.eqb_refl.
+    now rewrite app_nil_r.
+  - destruct fuel as [|fu]; [lia|]. cbn [brace_items]. rewrite <- !app_assoc. rewrite skip_space_ws by assumption.
+    rewrite (skip_space_tok t _ Hs). rewrite (tok_start_not_close t _ Hs).
+    rewrite (item_lex t a (rest ++ r) Hi (items_tail_follow item rest l r Ht)). cbn [lbind].
+    rewrite IH; [cbn [rev]; now rewrite <- app_assoc|].
+    rewrite !app_length in Hf. destruct t as [|b t]; [destruct Hs|]. cbn [List.length] in Hf. lia.
+Qed.
+
+Lemma brace_list_text txt l r : list_text item txt l -> lex_brace_list lex1 (txt ++ r) = LOk l r.
+Proof.
+  destruct 1 as [ws Hw|ws t a rest l Hw Hi Hs Ht].
+  - unfold lex_brace_list, expect. cbn [app starts_with]. rewrite N.eqb_refl. cbn [lbind].
+    cbn [brace_items]. rewrite <- app_assoc. rewrite skip_space_ws by assumption.
+    cbn [app skip_space]. change (is_space 125) with false. cbv iota. cbn [starts_with]. rewrite N.eqb_refl. reflexivity.
+  - unfold lex_brace_list, expect. cbn [app starts_with]. rewrite N.eqb_refl. cbn [lbind].
+    cbn [brace_items]. rewrite <- !app_assoc. rewrite skip_space_ws by assumption.
+    rewrite (skip_space_tok t _ Hs). rewrite (tok_start_not_close t _ Hs).
+    rewrite (item_lex t a (rest ++ r) Hi (items_tail_follow item rest l r Ht)). cbn [lbind].
+    rewrite (brace_items_tail rest l Ht r [a]); [reflexivity|].
+    repeat (cbn [List.length]; rewrite ?app_length). lia.
+Qed.
+End Items.
+
+Lemma int_item_lex t a r : int_item_text t a -> item_follow r -> lex_int_range (t ++ r) = LOk a r.
+Proof.
+  intros H Hr. destruct (item_lit_follow r Hr) as (Hi & _ & _ & Hd & _).
+  destruct H as [f v Hv Hf|f1 f2 a b Ha Hb H1 H2 Hab].
+  - now apply int_single_as_range.
+  - now apply int_range_roundtrip.
+Qed.
+Lemma ip_item_lex t a r : ip_item_text t a -> item_follow r -> lex_ip_range (t ++ r) = LOk a r.
+Proof.
+  intros H Hr. destruct (item_lit_follow r Hr) as (_ & Hp & _).
+  destruct H as [t a Ha|t a n Ha Hn Hm|t1 t2 a b Ha Hb Hs Hab].
+  - now apply host_in_list.
+  - rewrite <- app_assoc. cbn [app]. now apply cidr_roundtrip.
+  - rewrite <- !app_assoc. now apply ip_range_roundtrip.
+Qed.
+Lemma bytes_item_lex t a r : bytes_item_text t a -> item_follow r -> lex_bytes (t ++ r) = LOk a r.
+Proof.
+  intros H Hr. destruct a as [b f]. exact (lit_bytes_roundtrip t b f r H (item_lit_follow r Hr)).
+Qed.
+
+(* ---- the parser on atoms ---- *)
+Definition kcls (K : bool) (t : ty) : bool :=
+  if K then match t with TArray TBool => true | _ => false end else match t with TBool => true | _ => false end.
+Lemma kcls_eq K t : kcls K t = true -> t = kty K.
+Proof. destruct K, t as [| | | |e|e]; try discriminate; try reflexivity. destruct e; try discriminate; reflexivity. Qed.
+Lemma kcls_kty K : kcls K (kty K) = true.
+Proof. destruct K; reflexivity. Qed.
+Lemma kcls_comb K a b : kcls K a = true -> kcls K b = true -> types_combinable a b = true.
+Proof. intros Ha Hb. apply kcls_eq in Ha, Hb. subst. destruct K; reflexivity. Qed.
 
 Lemma increase_ok d x : d < st_max_depth st -> increase st d x = LOk (d + 1) [].
 Proof. intro Hd. unfold increase. destruct (st_max_depth st <=? d) eqn:E; [apply N.leb_le in E; lia|reflexivity]. Qed.
 
-Lemma index_expr_field f d name i t r : names_field sch name i t -> name_follow r ->
-  okf (lex_index_expr sch st f d (name ++ r)) (IField i []) r.
+(* after a left-hand side: what follows a name, or an opening bracket never *)
+Lemma idx_then_stop t0 itxt idx t r : idx_text t0 itxt idx t -> name_follow r -> ident_stop (itxt ++ r).
 Proof.
-  intros (Hn & _ & Hg & Hty) Hr. destruct f as [|f]; [now left|]. right.
-  cbn [lex_index_expr]. rewrite (ident_name_roundtrip name r Hn (follow_ident r Hr)). rewrite Hg, Hty.
-  cbn [lex_indexes]. rewrite (follow_no_bracket r Hr). reflexivity.
+  intros Hi Hr. destruct Hi; [now apply follow_ident|..]; cbn; split; (reflexivity || discriminate).
 Qed.
 
-Lemma field_ty_iexpr i t : field_ty sch i = Some t -> ty_iexpr sch (IField i []) = Some t.
-Proof. intro H. cbn [ty_iexpr]. rewrite H. reflexivity. Qed.
+Lemma index_expr_field f d name i t0 itxt idx t r : names_field sch name i t0 -> idx_text t0 itxt idx t -> name_follow r ->
+  okf (lex_index_expr sch st f d (name ++ itxt ++ r)) (IField i idx) r.
+Proof.
+  intros (Hn & _ & Hg & Hty) Hi Hr. destruct f as [|f]; [now left|]. right.
+  cbn [lex_index_expr]. rewrite (ident_name_roundtrip name _ Hn (idx_then_stop _ _ _ _ r Hi Hr)). rewrite Hg, Hty.
+  rewrite (lex_indexes_text t0 itxt idx t Hi r [] _ (follow_no_bracket r Hr)); [reflexivity|].
+  rewrite app_length. lia.
+Qed.
+
+Lemma field_ty_iexpr i t0 itxt idx t : field_ty sch i = Some t0 -> idx_text t0 itxt idx t -> ty_iexpr sch (IField i idx) = Some t.
+Proof. intros H Hi. cbn [ty_iexpr]. rewrite H. cbn. exact (idx_ty _ _ _ _ Hi). Qed.
 
 Lemma alias_cases a1 a2 c : In (a1, a2, c) comparison_aliases ->
   (exists b x, a2 = b :: x /\ (b = 61 \/ b = 33 \/ b = 62 \/ b = 60 \/ b = 126 \/ b = 38)).
@@ -238,33 +434,85 @@ Proof.
   cbn. intros H. destruct H as [H|[H|[H|[H|[H|[H|[H|[H|[]]]]]]]]]; injection H as <- <- <-; cbn; eexists _, _; split; try reflexivity; tauto.
 Qed.
 
-Lemma cmp_parses t sp sym lit c : cmp_text t sp sym lit c ->
+Lemma in_op_lex x : lex_alts comparison_ops (bs "in" ++ x) = Some (OpIn, x).
+Proof. reflexivity. Qed.
+
+Lemma brace_start_not_dollar {A} (item : bytes -> A -> Prop) txt l x : list_text item txt l -> starts_with [36] (txt ++ x) = None.
+Proof. destruct 1; reflexivity. Qed.
+
+Lemma cmp_parses t sp sym lit c : cmp_text_s sch t sp sym lit c ->
   forall f d lhs ws1 ws2 r, ty_iexpr sch lhs = Some t -> layout_ws ws1 -> layout_ws ws2 -> tok_start lit -> atom_follow r ->
   lex_with_lhs sch st (S f) d (ws1 ++ sp ++ ws2 ++ lit ++ r) lhs = LOk (EComparison lhs c) r.
 Proof.
-  intros H f d lhs ws1 ws2 r Hty H1 H2 Hs Hr.
-  destruct H as [t o sp sym lit v (a1 & a2 & Hin & Hsp) Hp Hl|sp sym lit z (a1 & a2 & Hin & Hsp) Hl|lit b fm Hl].
-  - destruct (ordering_layout sch st f d lhs t a1 a2 o ws1 ws2 (lit ++ r) Hin Hty Hp H1 H2 (no_eq_ws_tok ws2 lit r H2 Hs)) as [E1 E2].
-    rewrite (skip_space_tok lit r Hs), (lit_roundtrip _ _ _ r Hl Hr) in E1, E2. cbn [lbind] in E1, E2.
-    destruct Hsp as [[-> _]|[-> _]]; assumption.
-  - assert (a1 = bs "bitwise_and" /\ a2 = bs "&") as [-> ->].
-    { cbn in Hin. destruct Hin as [H|[H|[H|[H|[H|[H|[H|[H|[]]]]]]]]]; injection H as <- <-; try discriminate; auto. }
-    destruct (bitwise_and_layout sch st f d lhs ws1 ws2 (lit ++ r) Hty H1 H2) as [E1 E2].
-    rewrite (skip_space_tok lit r Hs), (lit_int_roundtrip _ _ r Hl Hr) in E1, E2. cbn [lbind] in E1, E2.
-    destruct Hsp as [[-> _]|[-> _]]; assumption.
-  - cbn [lex_with_lhs]. rewrite Hty. rewrite skip_space_ws by assumption.
-    change (skip_space (bs "contains" ++ ws2 ++ lit ++ r)) with (bs "contains" ++ ws2 ++ lit ++ r).
-    change (lex_alts comparison_ops (bs "contains" ++ ws2 ++ lit ++ r)) with (Some (OpContains, ws2 ++ lit ++ r)).
-    cbv iota beta. rewrite skip_space_ws by assumption. rewrite (skip_space_tok lit r Hs).
-    rewrite (lit_bytes_roundtrip _ _ _ r Hl Hr). reflexivity.
+  intros H f d lhs ws1 ws2 r Hty H1 H2 Hs Hr. pose proof (atom_lit_follow r Hr) as Hlf.
+  assert (Hin_op : forall x, lex_with_lhs sch st (S f) d (ws1 ++ bs "in" ++ ws2 ++ x) lhs =
+            match ty_iexpr sch lhs with
+            | Some TBool | Some (TArray TBool) | Some (TMap TBool) | None => lex_with_lhs sch st (S f) d (ws1 ++ bs "in" ++ ws2 ++ x) lhs
+            | Some lt =>
+                if negb (match lt with TInt | TBytes | TIp => true | _ => false end)
+                then LErr EUnsupportedOp (bs "in" ++ ws2 ++ x) (span_len (bs "in" ++ ws2 ++ x) (ws2 ++ x))
+                else match starts_with [36] (skip_space x) with
+                     | Some _ => lbind (lex_list_name (skip_space x)) (fun name rest =>
+                          match list_index sch lt with
+                          | Some li => LOk (EComparison lhs (CInList li name)) rest
+                          | None => LErr EUnsupportedOp (bs "in" ++ ws2 ++ x) (span_len (bs "in" ++ ws2 ++ x) rest)
+                          end)
+                     | None =>
+                        match lt with
+                        | TInt => lbind (lex_brace_list lex_int_range (skip_space x)) (fun l rest => LOk (EComparison lhs (COneOfInt l)) rest)
+                        | TIp => lbind (lex_brace_list lex_ip_range (skip_space x)) (fun l rest => LOk (EComparison lhs (COneOfIp l)) rest)
+                        | _ => lbind (lex_brace_list lex_bytes (skip_space x)) (fun l rest => LOk (EComparison lhs (COneOfBytes l)) rest)
+                        end
+                     end
+            end).
+  { intros x. cbn [lex_with_lhs]. destruct (ty_iexpr sch lhs) as [lt|]; [|reflexivity].
+    rewrite skip_space_ws by assumption. change (skip_space (bs "in" ++ ws2 ++ x)) with (bs "in" ++ ws2 ++ x).
+    rewrite in_op_lex. rewrite skip_space_ws by assumption.
+    destruct lt as [| | | |e|e]; try reflexivity; destruct e; reflexivity. }
+  destruct H as [t sp sym lit c H|t name li Hp Hgn Hli].
+  - destruct H as [t o sp sym lit v (a1 & a2 & Hin & Hsp) Hp Hl|sp sym lit z (a1 & a2 & Hin & Hsp) Hl|lit b fm Hl
+                   |txt l Hl|txt l Hl|txt l Hl].
+    + destruct (ordering_layout sch st f d lhs t a1 a2 o ws1 ws2 (lit ++ r) Hin Hty Hp H1 H2 (no_eq_ws_tok ws2 lit r H2 Hs)) as [E1 E2].
+      rewrite (skip_space_tok lit r Hs), (lit_roundtrip _ _ _ r Hl Hlf) in E1, E2. cbn [lbind] in E1, E2.
+      destruct Hsp as [[-> _]|[-> _]]; assumption.
+    + assert (a1 = bs "bitwise_and" /\ a2 = bs "&") as [-> ->].
+      { cbn in Hin. destruct Hin as [H|[H|[H|[H|[H|[H|[H|[H|[]]]]]]]]]; injection H as <- <-; try discriminate; auto. }
+      destruct (bitwise_and_layout sch st f d lhs ws1 ws2 (lit ++ r) Hty H1 H2) as [E1 E2].
+      rewrite (skip_space_tok lit r Hs), (lit_int_roundtrip _ _ r Hl Hlf) in E1, E2. cbn [lbind] in E1, E2.
+      destruct Hsp as [[-> _]|[-> _]]; assumption.
+    + cbn [lex_with_lhs]. rewrite Hty. rewrite skip_space_ws by assumption.
+      change (skip_space (bs "contains" ++ ws2 ++ lit ++ r)) with (bs "contains" ++ ws2 ++ lit ++ r).
+      change (lex_alts comparison_ops (bs "contains" ++ ws2 ++ lit ++ r)) with (Some (OpContains, ws2 ++ lit ++ r)).
+      cbv iota beta. rewrite skip_space_ws by assumption. rewrite (skip_space_tok lit r Hs).
+      rewrite (lit_bytes_roundtrip _ _ _ r Hl Hlf). reflexivity.
+    + rewrite Hin_op, Hty. cbn [negb]. cbv iota. rewrite (skip_space_tok txt r Hs).
+      rewrite (brace_start_not_dollar _ _ _ r Hl).
+      pose proof (brace_list_text int_item_text lex_int_range int_item_lex txt l r Hl) as E. unfold range in E.
+      rewrite E. reflexivity.
+    + rewrite Hin_op, Hty. cbn [negb]. cbv iota. rewrite (skip_space_tok txt r Hs).
+      rewrite (brace_start_not_dollar _ _ _ r Hl).
+      rewrite (brace_list_text ip_item_text lex_ip_range ip_item_lex txt l r Hl). reflexivity.
+    + rewrite Hin_op, Hty. cbn [negb]. cbv iota. rewrite (skip_space_tok txt r Hs).
+      rewrite (brace_start_not_dollar _ _ _ r Hl).
+      rewrite (brace_list_text bytes_item_text lex_bytes bytes_item_lex txt l r Hl). reflexivity.
+  - rewrite Hin_op, Hty. destruct (Hlf) as (_ & _ & _ & _ & Hln).
+    assert (E : lex_list_name (36 :: name ++ r) = LOk name r) by (now apply list_name_accept).
+    destruct t; try discriminate Hp; cbn [negb]; cbv iota; rewrite (skip_space_tok (36 :: name) r Hs);
+      cbn [app starts_with]; rewrite N.eqb_refl; rewrite E; cbn [lbind]; rewrite Hli; reflexivity.
 Qed.
 
-Lemma cmp_sym_first t sp lit c : cmp_text t sp true lit c ->
+Lemma cmp_sym_first t sp lit c : cmp_text_s sch t sp true lit c ->
   exists b x, sp = b :: x /\ (b = 61 \/ b = 33 \/ b = 62 \/ b = 60 \/ b = 126 \/ b = 38).
 Proof.
-  intros H. inversion H as [t' o sp' sym lit' v (a1 & a2 & Hin & Hsp) Hp Hl|sp' sym lit' z (a1 & a2 & Hin & Hsp) Hl|]; subst.
+  intros H. inversion H as [t' sp' sym' lit' c' H'|]; subst.
+  inversion H' as [t' o sp' sym lit' v (a1 & a2 & Hin & Hsp) Hp Hl|sp' sym lit' z (a1 & a2 & Hin & Hsp) Hl| | | |]; subst.
   - destruct Hsp as [[_ E]|[-> _]]; [discriminate E|]. exact (alias_cases _ _ _ Hin).
   - destruct Hsp as [[_ E]|[-> _]]; [discriminate E|]. exact (alias_cases _ _ _ Hin).
+Qed.
+
+Lemma cmp_not_istrue t sp sym lit c : cmp_text_s sch t sp sym lit c -> c <> CIsTrue /\ cmp3 t = true.
+Proof.
+  intros H. destruct H as [t sp sym lit c H|]; [destruct H|]; split; try discriminate; try reflexivity; assumption.
 Qed.
 
 Lemma layout_first_follow ws x : layout_ws ws -> ws <> [] -> name_follow (ws ++ x) /\ atom_follow (ws ++ x).
@@ -282,14 +530,14 @@ Combined Scheme grammar_ind from GSimple_mind, GTail_mind, GLogical_mind.
 
 Definition log_end (r : bytes) : Prop := atom_follow r /\ lex_combining_op r = (None, r).
 
-Definition PS (d : N) (t : bytes) (a : lexpr) : Prop :=
-  tok_start t /\ tok_end t /\ not_combining a /\ ty_lexpr sch a = Some TBool /\
+Definition PS (K : bool) (d : N) (t : bytes) (a : lexpr) : Prop :=
+  tok_start t /\ tok_end t /\ not_combining a /\ ty_lexpr sch a = Some (kty K) /\
   forall r f, atom_follow r -> okf (lex_simple sch st f d (t ++ r)) a r.
-Definition PT (d : N) (c : @chain lexpr) (tc : bytes) : Prop :=
+Definition PT (K : bool) (d : N) (c : @chain lexpr) (tc : bytes) : Prop :=
   (tc = [] \/ tok_end tc) /\ (forall r, atom_follow r -> atom_follow (tc ++ r)) /\
-  forall r, log_end r -> ChainRep sch st d is_bool c (tc ++ r) r.
-Definition PL (d : N) (t : bytes) (e : lexpr) : Prop :=
-  tok_start t /\ tok_end t /\ ty_lexpr sch e = Some TBool /\
+  forall r, log_end r -> ChainRep sch st d (kcls K) c (tc ++ r) r.
+Definition PL (K : bool) (d : N) (t : bytes) (e : lexpr) : Prop :=
+  tok_start t /\ tok_end t /\ ty_lexpr sch e = Some (kty K) /\
   forall r f, log_end r -> okf (lex_logical sch st f d (t ++ r)) e r.
 
 Lemma sep_first o s x : sep_text o s -> atom_follow (s ++ x).
@@ -308,43 +556,78 @@ Proof.
   - apply combining_op_none. rewrite skip_space_ws by assumption. reflexivity.
 Qed.
 
+Lemma tok_end_bracket p rest : (rest = [] \/ tok_end rest) -> tok_end (p ++ 93 :: rest).
+Proof.
+  intros [->|H]; [apply tok_end_last; split; reflexivity|].
+  change (p ++ 93 :: rest) with (p ++ [93] ++ rest). rewrite app_assoc. now apply tok_end_app.
+Qed.
+Lemma idx_text_end t0 itxt idx t : idx_text t0 itxt idx t -> itxt = [] \/ tok_end itxt.
+Proof.
+  induction 1 as [t|e ws1 f n ws2 rest idx t H1 H2 Hn Hf _ IH|e ws1 l ws2 rest idx t H1 H2 Hl Hu _ IH
+                  |e ws1 ws2 rest idx t H1 H2 _ IH|e ws1 ws2 rest idx t H1 H2 _ IH]; [now left|right..].
+  - replace (91 :: ws1 ++ print_int f n ++ ws2 ++ 93 :: rest) with ((91 :: ws1 ++ print_int f n ++ ws2) ++ 93 :: rest)
+      by (repeat (cbn [app]; rewrite <- ?app_assoc); reflexivity). now apply tok_end_bracket.
+  - replace (91 :: ws1 ++ print_quoted l ++ ws2 ++ 93 :: rest) with ((91 :: ws1 ++ print_quoted l ++ ws2) ++ 93 :: rest)
+      by (repeat (cbn [app]; rewrite <- ?app_assoc); reflexivity). now apply tok_end_bracket.
+  - replace (91 :: ws1 ++ 42 :: ws2 ++ 93 :: rest) with ((91 :: ws1 ++ 42 :: ws2) ++ 93 :: rest)
+      by (repeat (cbn [app]; rewrite <- ?app_assoc); reflexivity). now apply tok_end_bracket.
+  - replace (91 :: ws1 ++ 42 :: ws2 ++ 93 :: rest) with ((91 :: ws1 ++ 42 :: ws2) ++ 93 :: rest)
+      by (repeat (cbn [app]; rewrite <- ?app_assoc); reflexivity). now apply tok_end_bracket.
+Qed.
+
+Lemma lhs_ends name itxt t0 idx t : ident_text name -> idx_text t0 itxt idx t -> tok_start (name ++ itxt) /\ tok_end (name ++ itxt).
+Proof.
+  intros Hn Hi. destruct (ident_text_ends name Hn) as [Hs He]. split; [now apply tok_start_app|].
+  destruct (idx_text_end _ _ _ _ Hi) as [->|H]; [now rewrite app_nil_r|now apply tok_end_app].
+Qed.
+
 Theorem grammar_parses :
-  (forall d t a, GSimple sch st d t a -> PS d t a) /\
-  (forall d c tc, GTail sch st d c tc -> PT d c tc) /\
-  (forall d t e, GLogical sch st d t e -> PL d t e).
+  (forall K d t a, GSimple sch st K d t a -> PS K d t a) /\
+  (forall K d c tc, GTail sch st K d c tc -> PT K d c tc) /\
+  (forall K d t e, GLogical sch st K d t e -> PL K d t e).
 Proof.
   apply grammar_ind.
-  - (* bare boolean field *)
-    intros d name i Hnf. pose proof Hnf as (Hn & Hk & Hg & Hty).
-    destruct (ident_text_ends name Hn) as [Hs He].
-    repeat split; try assumption; [cbn [ty_lexpr ty_iexpr]; rewrite Hty; reflexivity|].
+  - (* bare boolean / boolean-array left-hand side *)
+    intros K d name i t0 itxt idx t Hnf Hi Hk. pose proof Hnf as (Hn & Hkw & Hg & Hty).
+    destruct (lhs_ends name itxt t0 idx t Hn Hi) as [Hs He].
+    pose proof (field_ty_iexpr i t0 itxt idx t Hty Hi) as Hlt.
+    split; [exact Hs|]. split; [exact He|]. split; [exact I|]. split.
+    { cbn [ty_lexpr]. unfold ty_cmp_of. cbn [iexpr_idx]. rewrite Hlt. unfold istrue_class in Hk.
+      destruct (Nat.ltb 0 (map_each_count idx)); destruct t as [| | | |e|e]; try discriminate Hk;
+        try (destruct e; try discriminate Hk); injection Hk as <-; reflexivity. }
     intros r f Hr. destruct f as [|f]; [now left|].
-    destruct (name_not_special name r Hn Hk (follow_ident r (atom_name_follow r Hr))) as (E1 & E2 & E3).
-    remember (name ++ r) as inp eqn:Ei. cbn [lex_simple]. rewrite E1, E2, E3. subst inp.
-    eapply okf_bind; [apply (index_expr_field f d name i TBool r Hnf); now apply atom_name_follow|].
-    destruct f as [|f]; [now left|]. right. cbn [lex_with_lhs]. rewrite (field_ty_iexpr i TBool Hty). reflexivity.
+    rewrite <- app_assoc.
+    destruct (name_not_special name _ Hn Hkw (idx_then_stop _ _ _ _ r Hi (atom_name_follow r Hr))) as (E1 & E2 & E3).
+    remember (name ++ itxt ++ r) as inp eqn:Ei. cbn [lex_simple]. rewrite E1, E2, E3. subst inp.
+    eapply okf_bind; [apply (index_expr_field f d name i t0 itxt idx t r Hnf Hi); now apply atom_name_follow|].
+    destruct f as [|f]; [now left|]. right. cbn [lex_with_lhs]. rewrite Hlt. cbn [iexpr_idx]. unfold istrue_class in Hk.
+    destruct t as [| | | |e|e]; try discriminate Hk; try reflexivity;
+      destruct e; try discriminate Hk; destruct (Nat.ltb 0 (map_each_count idx)); try discriminate Hk; reflexivity.
   - (* comparison *)
-    intros d name i t ws1 sp sym ws2 lit c Hnf H1 H2 Hsym Hc Hls Hle.
-    pose proof Hnf as (Hn & Hk & Hg & Hty).
-    destruct (ident_text_ends name Hn) as [Hs He].
-    split; [now apply tok_start_app|]. split; [rewrite !app_assoc; now apply tok_end_app|].
+    intros K d name i t0 itxt idx t ws1 sp sym ws2 lit c Hnf Hi HK H1 H2 Hsym Hc Hls Hle.
+    pose proof Hnf as (Hn & Hkw & Hg & Hty).
+    destruct (lhs_ends name itxt t0 idx t Hn Hi) as [Hs He].
+    pose proof (field_ty_iexpr i t0 itxt idx t Hty Hi) as Hlt.
+    destruct (cmp_not_istrue _ _ _ _ _ Hc) as [Hnc Hp3].
+    split; [rewrite app_assoc; now apply tok_start_app|]. split; [rewrite !app_assoc; now apply tok_end_app|].
     split; [exact I|]. split.
-    { cbn [ty_lexpr ty_iexpr]. rewrite Hty. destruct Hc; reflexivity. }
+    { cbn [ty_lexpr]. unfold ty_cmp_of. cbn [iexpr_idx]. subst K. destruct (Nat.ltb 0 (map_each_count idx)); [reflexivity|].
+      destruct c; try reflexivity. congruence. }
     intros r f Hr. destruct f as [|f]; [now left|].
     assert (Hnf' : name_follow (ws1 ++ sp ++ ws2 ++ lit ++ r)).
     { destruct ws1 as [|c0 ws1].
       - destruct Hsym as [->|Hs']; [|congruence]. destruct (cmp_sym_first _ _ _ _ Hc) as (b & x & -> & Hb).
         cbn. tauto.
       - apply (layout_first_follow (c0 :: ws1)); [assumption|discriminate]. }
-    replace ((name ++ ws1 ++ sp ++ ws2 ++ lit) ++ r) with (name ++ ws1 ++ sp ++ ws2 ++ lit ++ r)
+    replace ((name ++ itxt ++ ws1 ++ sp ++ ws2 ++ lit) ++ r) with (name ++ itxt ++ (ws1 ++ sp ++ ws2 ++ lit ++ r))
       by (now rewrite <- !app_assoc).
-    destruct (name_not_special name _ Hn Hk (follow_ident _ Hnf')) as (E1 & E2 & E3).
-    remember (name ++ ws1 ++ sp ++ ws2 ++ lit ++ r) as inp eqn:Ei. cbn [lex_simple]. rewrite E1, E2, E3. subst inp.
-    eapply okf_bind; [apply (index_expr_field f d name i t _ Hnf); assumption|].
+    destruct (name_not_special name _ Hn Hkw (idx_then_stop _ _ _ _ _ Hi Hnf')) as (E1 & E2 & E3).
+    remember (name ++ itxt ++ ws1 ++ sp ++ ws2 ++ lit ++ r) as inp eqn:Ei. cbn [lex_simple]. rewrite E1, E2, E3. subst inp.
+    eapply okf_bind; [apply (index_expr_field f d name i t0 itxt idx t _ Hnf Hi); assumption|].
     destruct f as [|f]; [now left|]. right.
-    apply (cmp_parses t sp sym lit c Hc f d (IField i []) ws1 ws2 r (field_ty_iexpr i t Hty) H1 H2 Hls Hr).
+    apply (cmp_parses t sp sym lit c Hc f d (IField i idx) ws1 ws2 r Hlt H1 H2 Hls Hr).
   - (* not *)
-    intros d sp ws t a Hsp Hw Hd _ (Hs & He & Hn & Hty & Hp).
+    intros K d sp ws t a Hsp Hw Hd _ (Hs & He & Hn & Hty & Hp).
     split. { destruct Hsp as [<-|[<-|[]]]; cbn; repeat split; try reflexivity; discriminate. }
     split; [rewrite app_assoc; now apply tok_end_app|]. split; [exact I|]. split; [exact Hty|].
     intros r f Hr. destruct f as [|f]; [now left|].
@@ -357,7 +640,7 @@ Proof.
     { destruct Hsp as [<-|[<-|[]]]; assumption. }
     rewrite E. eapply okf_bind; [apply Hp; assumption|]. now right.
   - (* parentheses *)
-    intros d ws1 t e ws2 H1 H2 Hd _ (Hs & He & Hty & Hp).
+    intros K d ws1 t e ws2 H1 H2 Hd _ (Hs & He & Hty & Hp).
     split; [cbn; repeat split; try reflexivity; discriminate|].
     split. { change (40 :: ws1 ++ t ++ ws2 ++ [41]) with ([40] ++ ws1 ++ t ++ ws2 ++ [41]). rewrite !app_assoc. apply tok_end_last. split; reflexivity. }
     split; [exact I|]. split; [exact Hty|].
@@ -371,10 +654,10 @@ Proof.
     eapply okf_bind; [apply Hp; now apply close_log_end|].
     rewrite (expect_close_layout ws2 r H2). cbn [lbind]. now right.
   - (* empty tail *)
-    intros d. split; [now left|]. split; [intros r Hr; exact Hr|].
+    intros K d. split; [now left|]. split; [intros r Hr; exact Hr|].
     intros r [Hr He]. cbn [app ChainRep]. auto.
   - (* operator, simple expression, tail *)
-    intros d o s ta a c tc Hsep _ (Hs & He & Hn & Hty & Hp) _ (Hte & Htf & Htc).
+    intros K d o s ta a c tc Hsep _ (Hs & He & Hn & Hty & Hp) _ (Hte & Htf & Htc).
     split. { right. destruct Hte as [->|Hte]; [rewrite app_nil_r; now apply tok_end_app|rewrite app_assoc; now apply tok_end_app]. }
     split. { intros r _. rewrite <- app_assoc. exact (sep_first o s _ Hsep). }
     intros r Hr. pose proof Hsep as (ws1 & sp & sym & ws2 & -> & H1 & H2 & (a1 & a2 & Hin & Hsp) & Hsym).
@@ -384,22 +667,22 @@ Proof.
       destruct (combining_op_layout a1 a2 (cv o) ws1 ws2 (ta ++ tc ++ r) Hin H1 H2) as [C1 C2].
       rewrite (skip_space_tok ta _ Hs) in C1, C2. destruct Hsp as [[-> _]|[-> _]]; assumption. }
     split. { intros f. cbn [interp]. apply Hp. apply Htf. apply Hr. }
-    split; [exact Hn|]. split; [exists TBool; cbn [interp]; auto|].
+    split; [exact Hn|]. split; [exists (kty K); cbn [interp]; split; [exact Hty|apply kcls_kty]|].
     apply Htc. exact Hr.
   - (* a whole logical expression *)
-    intros d x t0 a0 tc Hx Hf _ (Hs & He & Hn & Hty & Hp) _ (Hte & Htf & Htc).
+    intros K d x t0 a0 tc Hx Hf _ (Hs & He & Hn & Hty & Hp) _ (Hte & Htf & Htc).
     assert (Hall : forall r, log_end r ->
               (forall f, okf (lex_logical sch st f d (t0 ++ tc ++ r)) (interp (build_or x)) r) /\
-              lex_combining_op r = (None, r) /\ wt sch is_bool (build_or x)).
-    { intros r Hr. apply (logical_chain_parses sch st d is_bool is_bool_comb x (t0 ++ tc ++ r) (tc ++ r) r Hx).
+              lex_combining_op r = (None, r) /\ wt sch (kcls K) (build_or x)).
+    { intros r Hr. apply (logical_chain_parses sch st d (kcls K) (kcls_comb K) x (t0 ++ tc ++ r) (tc ++ r) r Hx).
       - intros f. rewrite Hf. cbn [interp]. apply Hp. apply Htf. apply Hr.
       - rewrite Hf. exact Hn.
-      - rewrite Hf. exists TBool. cbn [interp]. auto.
+      - rewrite Hf. exists (kty K). cbn [interp]. split; [exact Hty|apply kcls_kty].
       - apply Htc. exact Hr. }
     split; [now apply tok_start_app|].
     split. { destruct Hte as [->|Hte]; [now rewrite app_nil_r|now apply tok_end_app]. }
     split.
-    { destruct (Hall [] (conj I eq_refl)) as (_ & _ & (t & Ht & Hb)). now rewrite (is_bool_eq t Hb) in Ht. }
+    { destruct (Hall [] (conj I eq_refl)) as (_ & _ & (t & Ht & Hb)). now rewrite (kcls_eq K t Hb) in Ht. }
     intros r f Hr. rewrite <- app_assoc. apply (proj1 (Hall r Hr)).
 Qed.
 
@@ -445,7 +728,7 @@ Theorem filter_grammar_parses sch st text e : GFilter sch st text e -> parse_fil
 Proof.
   intros (ws1 & t & ws2 & -> & H1 & H2 & HG).
   rewrite (parse_filter_outer_layout sch st ws1 ws2 t H1 H2).
-  destruct (proj2 (proj2 (grammar_parses sch st)) 0 t e HG) as (Hs & He & Hty & Hp).
+  destruct (proj2 (proj2 (grammar_parses sch st)) false 0 t e HG) as (Hs & He & Hty & Hp).
   pose proof (parse_filter_terminates sch st t) as Hnf.
   unfold parse_filter in *. rewrite (trim_id t Hs He) in *.
   specialize (Hp [] (8 * List.length t + 16)%nat (conj I eq_refl)). rewrite app_nil_r in Hp.
@@ -458,65 +741,87 @@ Corollary layouts_agree sch st t1 t2 e :
   GFilter sch st t1 e -> GFilter sch st t2 e -> parse_filter sch st t1 = parse_filter sch st t2.
 Proof. intros H1 H2. now rewrite (filter_grammar_parses _ _ _ _ H1), (filter_grammar_parses _ _ _ _ H2). Qed.
 
-(* ---- text level to denotation, and a worked instance ---- *)
+(* ---- a worked instance ---- *)
 Definition gex_sch : scheme :=
   {| sc_fields := [ {| fd_name := bs "num"; fd_ty := TInt; fd_optional := false |};
                     {| fd_name := bs "http.host"; fd_ty := TBytes; fd_optional := false |};
-                    {| fd_name := bs "tt"; fd_ty := TBool; fd_optional := false |} ];
+                    {| fd_name := bs "tt"; fd_ty := TBool; fd_optional := false |};
+                    {| fd_name := bs "nums"; fd_ty := TArray TInt; fd_optional := true |} ];
      sc_functions := []; sc_lists := []; sc_nil_ne := true |}.
 Definition gex_a1 : lexpr := EComparison (IField 0 []) (COrd OGe (RInt 5)).
 Definition gex_a2 : lexpr := EComparison (IField 2 []) CIsTrue.
 Definition gex_a3 : lexpr := ENot (EParen (EComparison (IField 1 []) (COrd OEq (RBytes [97] FQuoted)))).
-Definition gex_x : @orl lexpr := (((Atom gex_a1, [Atom gex_a2]), []), [((Atom gex_a3, []), [])]).
+Definition gex_a4 : lexpr := EComparison (IField 3 [IArr 1]) (COneOfInt [(1, 1); (3, 5)]%Z).
+Definition gex_x : @orl lexpr := (((Atom gex_a1, [Atom gex_a2]), []), [((Atom gex_a3, []), []); ((Atom gex_a4, []), [])]).
 Definition gex_text : bytes := bs "num>=5 and tt
-  || !( http.host  eq ""a"")".
+  || !( http.host  eq ""a"") or nums[ 1 ] in {1 3..5}".
 
 Lemma gex_names : names_field gex_sch (bs "num") 0 TInt /\ names_field gex_sch (bs "http.host") 1 TBytes /\
-                  names_field gex_sch (bs "tt") 2 TBool.
+                  names_field gex_sch (bs "tt") 2 TBool /\ names_field gex_sch (bs "nums") 3 (TArray TInt).
 Proof.
   assert (I1 : ident_text (bs "num")) by (apply IT_seg; [discriminate|repeat constructor]).
   assert (I2 : ident_text (bs "http.host")).
   { apply (IT_dot (bs "http") (bs "host")); [discriminate|repeat constructor|apply IT_seg; [discriminate|repeat constructor]]. }
   assert (I3 : ident_text (bs "tt")) by (apply IT_seg; [discriminate|repeat constructor]).
+  assert (I4 : ident_text (bs "nums")) by (apply IT_seg; [discriminate|repeat constructor]).
   repeat split; assumption || reflexivity.
 Qed.
 
+Lemma ws1 : layout_ws [32]. Proof. repeat constructor. Qed.
+Lemma ws0 : layout_ws []. Proof. constructor. Qed.
+
 Example gex_in_grammar : GFilter gex_sch default_settings gex_text (interp (build_or gex_x)).
 Proof.
-  destruct gex_names as (N1 & N2 & N3).
-  exists [], gex_text, []. repeat split; try constructor.
+  destruct gex_names as (N1 & N2 & N3 & N4).
+  exists [], gex_text, []. split; [reflexivity|]. split; [exact ws0|]. split; [exact ws0|].
   change gex_text with (bs "num>=5" ++ (bs " and " ++ bs "tt" ++ (bs "
-  || " ++ bs "!( http.host  eq ""a"")" ++ []))).
-  apply (GL gex_sch default_settings 0 gex_x (bs "num>=5") gex_a1); [repeat constructor|reflexivity| |].
-  - apply (GS_cmp gex_sch default_settings 0 (bs "num") 0 TInt [] (bs ">=") true [] (bs "5") (COrd OGe (RInt 5)) N1);
-      [constructor|constructor|now left| |cbn; repeat split; discriminate|cbn; repeat split].
-    apply CT_ord; [exists (bs "ge"), (bs ">="); split; [cbn; tauto|now right]|reflexivity|].
+  || " ++ bs "!( http.host  eq ""a"")" ++ (bs " or " ++ bs "nums[ 1 ] in {1 3..5}" ++ [])))).
+  apply (GL gex_sch default_settings false 0 gex_x (bs "num>=5") gex_a1); [repeat constructor|reflexivity| |].
+  - apply (GS_cmp gex_sch default_settings false 0 (bs "num") 0 TInt [] [] TInt [] (bs ">=") true [] (bs "5") (COrd OGe (RInt 5)) N1);
+      [constructor|reflexivity|exact ws0|exact ws0|now left| |cbn; repeat split; discriminate|cbn; repeat split].
+    apply CS_plain, CT_ord; [exists (bs "ge"), (bs ">="); split; [cbn; tauto|now right]|reflexivity|].
     apply (LT_int IDec 5); [unfold in_i64, i64_min, i64_max; lia|exact I].
-  - change (rest_or gex_x) with [(And, Atom gex_a2); (Or, Atom gex_a3)].
+  - change (rest_or gex_x) with [(And, Atom gex_a2); (Or, Atom gex_a3); (Or, Atom gex_a4)].
     apply GT_cons.
-    + exists [32], (bs "and"), false, [32]. repeat split; try (repeat constructor; tauto).
-      * exists (bs "and"), (bs "&&"). split; [cbn; tauto|now left].
-      * right. discriminate.
-    + apply GS_bool. exact N3.
-    + apply GT_cons; [| |apply GT_nil].
-      * exists [10; 32; 32], (bs "||"), true, [32]. repeat split; try (repeat constructor; tauto).
-        exists (bs "or"), (bs "||"). split; [cbn; tauto|now right].
-      * apply (GS_not gex_sch default_settings 0 (bs "!") [] (bs "( http.host  eq ""a"")")); [cbn; tauto|constructor|reflexivity|].
-        change (bs "( http.host  eq ""a"")") with (40 :: [32] ++ (bs "http.host  eq ""a""") ++ [] ++ [41]).
-        apply GS_paren; [repeat constructor; tauto|constructor|reflexivity|].
-        change (bs "http.host  eq ""a""") with (bs "http.host  eq ""a""" ++ []).
-        apply (GL gex_sch default_settings (0 + 1 + 1)
-                 (((Atom (EComparison (IField 1 []) (COrd OEq (RBytes [97] FQuoted))), []), []), [])
-                 (bs "http.host  eq ""a""") (EComparison (IField 1 []) (COrd OEq (RBytes [97] FQuoted))));
-          [repeat constructor|reflexivity| |apply GT_nil].
-        apply (GS_cmp gex_sch default_settings (0 + 1 + 1) (bs "http.host") 1 TBytes [32; 32] (bs "eq") false [32]
-                 (bs """a""") (COrd OEq (RBytes [97] FQuoted)) N2);
-          [repeat constructor; tauto|repeat constructor; tauto|right; discriminate| |cbn; repeat split; discriminate|cbn; repeat split].
-        apply CT_ord; [exists (bs "eq"), (bs "=="); split; [cbn; tauto|now left]|reflexivity|].
-        apply (LT_quoted [(SLit, 97)]). repeat constructor; cbn; try lia; auto.
+    { exists [32], (bs "and"), false, [32]. split; [reflexivity|]. split; [exact ws1|]. split; [exact ws1|]. split.
+      - exists (bs "and"), (bs "&&"). split; [cbn; tauto|now left].
+      - right. discriminate. }
+    { apply (GS_istrue gex_sch default_settings false 0 (bs "tt") 2 TBool [] [] TBool N3); [constructor|reflexivity]. }
+    apply GT_cons.
+    { exists [10; 32; 32], (bs "||"), true, [32]. split; [reflexivity|]. split; [repeat constructor; tauto|]. split; [exact ws1|]. split.
+      - exists (bs "or"), (bs "||"). split; [cbn; tauto|now right].
+      - now left. }
+    { apply (GS_not gex_sch default_settings false 0 (bs "!") [] (bs "( http.host  eq ""a"")")); [cbn; tauto|exact ws0|reflexivity|].
+      change (bs "( http.host  eq ""a"")") with (40 :: [32] ++ (bs "http.host  eq ""a""") ++ [] ++ [41]).
+      apply GS_paren; [exact ws1|exact ws0|reflexivity|].
+      change (bs "http.host  eq ""a""") with (bs "http.host  eq ""a""" ++ []).
+      apply (GL gex_sch default_settings false (0 + 1 + 1)
+               (((Atom (EComparison (IField 1 []) (COrd OEq (RBytes [97] FQuoted))), []), []), [])
+               (bs "http.host  eq ""a""") (EComparison (IField 1 []) (COrd OEq (RBytes [97] FQuoted))));
+        [repeat constructor|reflexivity| |apply GT_nil].
+      apply (GS_cmp gex_sch default_settings false (0 + 1 + 1) (bs "http.host") 1 TBytes [] [] TBytes [32; 32] (bs "eq") false [32]
+               (bs """a""") (COrd OEq (RBytes [97] FQuoted)) N2);
+        [constructor|reflexivity|repeat constructor; tauto|exact ws1|right; discriminate| |cbn; repeat split; discriminate|cbn; repeat split].
+      apply CS_plain, CT_ord; [exists (bs "eq"), (bs "=="); split; [cbn; tauto|now left]|reflexivity|].
+      apply (LT_quoted [(SLit, 97)]). repeat constructor; cbn; try lia; auto. }
+    apply GT_cons; [| |apply GT_nil].
+    { exists [32], (bs "or"), false, [32]. split; [reflexivity|]. split; [exact ws1|]. split; [exact ws1|]. split.
+      - exists (bs "or"), (bs "||"). split; [cbn; tauto|now left].
+      - right. discriminate. }
+    apply (GS_cmp gex_sch default_settings false 0 (bs "nums") 3 (TArray TInt) (bs "[ 1 ]") [IArr 1] TInt [32] (bs "in") false [32]
+             (bs "{1 3..5}") (COneOfInt [(1, 1); (3, 5)]%Z) N4);
+      [|reflexivity|exact ws1|exact ws1|right; discriminate| |cbn; repeat split; discriminate|cbn; repeat split].
+    + apply (IX_arr TInt [32] IDec 1 [32] [] [] TInt ws1 ws1); [lia|exact I|constructor].
+    + apply CS_plain, CT_in_int.
+      apply (LT_items int_item_text [] (bs "1") (1, 1)%Z (bs " 3..5}") [(3, 5)%Z] ws0).
+      * apply (II_one IDec 1); [unfold in_i64, i64_min, i64_max; lia|exact I].
+      * cbn; repeat split; discriminate.
+      * apply (IT_more int_item_text [32] (bs "3..5") (3, 5)%Z (bs "}") [] ws1); [discriminate| |cbn; repeat split; discriminate|].
+        -- apply (II_range IDec IDec 3 5); try exact I; unfold in_i64, i64_min, i64_max; lia.
+        -- apply (IT_close int_item_text [] ws0).
 Qed.
 
 Example gex_parses :
   parse_filter gex_sch default_settings gex_text =
-  LOk (ECombining LOr (LCons (ECombining LAnd (LCons gex_a1 (LCons gex_a2 LNil))) (LCons gex_a3 LNil))) [].
+  LOk (ECombining LOr (LCons (ECombining LAnd (LCons gex_a1 (LCons gex_a2 LNil))) (LCons gex_a3 (LCons gex_a4 LNil)))) [].
 Proof. exact (filter_grammar_parses _ _ _ _ gex_in_grammar). Qed.
